@@ -204,6 +204,9 @@ func (fr *Frame) callFn(fn *ssa.Function, bind []Value, recv Value, args []Value
 	if recv != nil {
 		args = append([]Value{recv}, args...)
 	}
+	if fn.Name() == "init" && ex.rootPkg != nil && fn.Pkg != ex.rootPkg {
+		return nil // initialisers of imported packages are not executed
+	}
 	if r, ok := fr.intrinsic(fn, args, pc, in); ok {
 		return r
 	}
